@@ -9,6 +9,8 @@ copies of /repo and /verif (VERIF_REPO), 16 in parallel.  Mutants that survive b
 
   tools/mutsweep.py enumerate  [--seed N] [--max N]          -> /tmp/ms/mutants.jsonl
   tools/mutsweep.py run        [--workers 16] [--only IDs]    -> /tmp/ms/results.jsonl
+  tools/mutsweep.py recheck    [--workers 6]                   re-runs the test-suite kills with one retry (the suite
+                                                               sleeps in real time and is flaky under load) -> results2.jsonl
   tools/mutsweep.py report
   tools/mutsweep.py clean                                      removes /tmp/ms
 
@@ -228,6 +230,15 @@ def run_one(args):
         tail, passed = "timeout", False
     res["tests"] = tail
     res["t_tests"] = round(time.time() - t0, 1)
+    if not passed and os.environ.get("MS_RETRY"):
+        # the suite sleeps in real time: under load a test can fail spuriously - a kill must be reproducible
+        try:
+            p = subprocess.run(["/venv/bin/python", "-m", "pytest", "-x", "-q", "-p", "no:cacheprovider", "--timeout=120"],
+                               cwd=f"{w}/repo", env=env, capture_output=True, text=True, timeout=600)
+            passed = p.returncode == 0
+            res["tests_retry"] = p.stdout.strip().splitlines()[-1] if p.stdout.strip() else ""
+        except subprocess.TimeoutExpired:
+            passed = False
     if not passed:
         res.update(stage="A", outcome="killed-by-tests")
         return res
@@ -259,13 +270,13 @@ def run_one(args):
     return res
 
 
-def run(workers, only):
+def run(workers, only, outname="results.jsonl"):
     ms = [json.loads(l) for l in open(f"{ROOT}/mutants.jsonl")]
     done = set()
-    if os.path.exists(f"{ROOT}/results.jsonl"):
-        done = {json.loads(l)["id"] for l in open(f"{ROOT}/results.jsonl")}
+    if os.path.exists(f"{ROOT}/{outname}"):
+        done = {json.loads(l)["id"] for l in open(f"{ROOT}/{outname}")}
     if only:
-        ms = [m for m in ms if m["id"] in only]
+        ms = [m for m in ms if m["id"] in only and m["id"] not in done]
     else:
         ms = [m for m in ms if m["id"] not in done]
     if not any(m.get("kind") == "identity" for m in ms) and -1 not in done and not only:
@@ -278,7 +289,7 @@ def run(workers, only):
     for m in ms:
         q.put(m)
     lock = threading.Lock()
-    out = open(f"{ROOT}/results.jsonl", "a")
+    out = open(f"{ROOT}/{outname}", "a")
 
     def worker(k):
         while True:
@@ -301,6 +312,10 @@ def run(workers, only):
 
 def report():
     rs = [json.loads(l) for l in open(f"{ROOT}/results.jsonl")]
+    for extra in ("results2.jsonl", "results3.jsonl"):   # recheck of the test-suite kills; re-run of the survivors
+        if os.path.exists(f"{ROOT}/{extra}"):
+            r2 = {json.loads(l)["id"]: json.loads(l) for l in open(f"{ROOT}/{extra}")}
+            rs = [r2.get(r["id"], r) for r in rs]
     from collections import Counter
     print(Counter(r["outcome"] for r in rs))
     print("caught by:", Counter(r.get("by") for r in rs if r["outcome"] == "caught"))
@@ -320,7 +335,12 @@ if __name__ == "__main__":
         enumerate_mutants(opt("--seed", 0), opt("--max", 400))
     elif cmd == "run":
         only = [int(x) for x in opt("--only", "").split(",") if x] if "--only" in args else None
-        run(opt("--workers", 16), only)
+        run(opt("--workers", 16), only, opt("--out", "results.jsonl"))
+    elif cmd == "recheck":
+        # second pass over the mutants the first pass saw killed by the tests, with fewer workers and one retry
+        os.environ["MS_RETRY"] = "1"
+        killed = [json.loads(l)["id"] for l in open(f"{ROOT}/results.jsonl") if json.loads(l)["outcome"] == "killed-by-tests"]
+        run(opt("--workers", 6), [i for i in killed if i >= 0], "results2.jsonl")
     elif cmd == "report":
         report()
     elif cmd == "clean":
